@@ -59,7 +59,8 @@ type Options struct {
 
 // Variant is one abstract instance of a template.
 type Variant struct {
-	Atoms map[string]bool
+	Atoms     map[string]bool
+	Consulted map[string]bool // atoms the template actually tested in this assignment
 	Src   string
 	File  *ast.File
 	Fset  *token.FileSet
@@ -550,7 +551,6 @@ func Expand(t *Template, o Options) *Expansion {
 		x.Capped = true
 		return x
 	}
-	seenSrc := map[string]bool{}
 	for mask := 0; mask < 1<<len(x.Atoms); mask++ {
 		atoms := map[string]bool{}
 		for i, k := range x.Atoms {
@@ -560,23 +560,30 @@ func Expand(t *Template, o Options) *Expansion {
 			continue
 		}
 		src, seen := x.run(atoms, o.Elems)
-		// canonical: only atoms actually consulted matter
+		// Every assignment is kept (with all atoms), except that assignments differing only
+		// in atoms that were not consulted AND yielding identical text are merged into the
+		// one where the unconsulted atoms are false — rules still see those atoms (as false)
+		// and can tell "not consulted" from the Consulted set.
 		canon := map[string]bool{}
-		var ck []string
-		for k := range seen {
-			if strings.HasPrefix(k, "range:") {
-				continue
+		skip := false
+		for k, val := range atoms {
+			if !seen[k] && val {
+				skip = true // represented by the assignment with this atom false
 			}
-			canon[k] = atoms[k]
-			ck = append(ck, fmt.Sprintf("%s=%v", k, atoms[k]))
+			canon[k] = val
 		}
-		sort.Strings(ck)
-		key := strings.Join(ck, ",")
-		if seenSrc[key] {
+		if skip {
 			continue
 		}
-		seenSrc[key] = true
-		v := &Variant{Atoms: canon, Src: src}
+		consulted := map[string]bool{}
+		for k := range seen {
+			if !strings.HasPrefix(k, "range:") {
+				consulted[k] = true
+			}
+		}
+		key := src
+		_ = key
+		v := &Variant{Atoms: canon, Src: src, Consulted: consulted}
 		if t.Kind != "TextTemplate" {
 			v.Fset = token.NewFileSet()
 			v.File, v.Err = parser.ParseFile(v.Fset, "skeleton.go", "package x\n"+src, parser.ParseComments|parser.SkipObjectResolution)
